@@ -38,8 +38,9 @@ SPEC = dict(
         "sender comparison is string equality with the recorded addressee, as in the code: case variants and bare/full variants of the "
         "addressee do not complete a request (it then completes at the next non-resumable session end)",
         "a request stays pending while the peer is silent and the session lives or is resumable: timeouts are the caller's domain",
-        "manager layer (part C) and chain/chainIq/chainSuccess conversion are exercised on the implementation, not modelled in Lean "
-        "beyond the IQ table and the MAM machine (partial)",
+        "chain/chainIq/chainSuccess: the attach-one-continuation-and-finish pattern is proved on the C13 task model (chain_once, "
+        "chain_once_ready, chain_at_most_once); that each manager API is built only from these combinators is not checked by a "
+        "translator — the manager layer (part C) counts completions on the implementation instead (partial)",
     ],
     level_text="Theorems for every configuration and operation list: a request number is completed at most once and, in every reachable "
                "state, is either pending or completed exactly once (permutation invariant); a completion by reply implies a received "
@@ -47,7 +48,8 @@ SPEC = dict(
                "'to' asked or the own bare JID); any other stanza is a no-op; non-resumable session end / destruction empties the table "
                "and completes everything; resumable ends keep everything; any continuation containing a matching reply, send failure "
                "or non-resumable end completes a pending request. MAM machine: finished at most once always, and exactly once (state released) for every "
-               "history once the IQ has completed and all decryption jobs have reported, with or without e2ee, empty page included.",
+               "history once the IQ has completed and all decryption jobs have reported, with or without e2ee, empty page included. chain_once: a task built by chain finishes exactly once when its source does "
+               "(context alive), at most once always.",
     level_note="Proved about the hand-written models; model-to-code tie is differential (exhaustive to a depth, sampled beyond). "
                "Continuation chaining and the other managers are checked by direct counting on the implementation only.",
     design_ref="5.7",
